@@ -18,7 +18,7 @@ VARIABLES desc, term, dense, pc
 vars == <<desc, term, dense, pc>>
 N == 4
 Cls == <<"Dense", "Diag", "ConstDiag", "Identity", "Toeplitz", "Chol", "Kron", "KronDiag", "KronAddedDiag", "SumKron", "AddedDiag",
-         "LRRAddedDiag", "Sum", "PsdSum", "ConstMul", "BlockDiag", "BlockInter", "BatchRepeat", "Mul", "AddedDiagI", "LRRAddedDiagI", "MixedDef", "LowRankHuge">>
+         "LRRAddedDiag", "Sum", "PsdSum", "ConstMul", "BlockDiag", "BlockInter", "BatchRepeat", "Mul", "AddedDiagI", "LRRAddedDiagI", "MixedDef", "LowRankHuge", "BlockDiagRepeat", "BlockInterRepeat", "SumBatchRepeat">>
 Batches == << <<>>, <<2>> >>
 DepthOf(c) == IF c \in G_LeafClasses THEN 0 ELSE 1
 
@@ -38,7 +38,9 @@ Queries == << <<"cholesky", "lower", "LLt", TRUE>>, <<"cholesky", "upper", "RtR"
               <<"diagonalization", "none", "eig", TRUE>>, <<"diagonalization", "symeig", "eig", TRUE>>, <<"diagonalization", "lanczos", "eig", FALSE>>,
               <<"sample", "k1", "cov", TRUE>>, <<"sample", "k2", "cov", TRUE>>, <<"sample_ciq", "k1", "cov", FALSE>>, <<"sample_ciq", "k2", "cov", FALSE>>,
               \* sampling from an object whose diagonalization has been queried before (the sampler then prefers the cached diagonalization)
-              <<"sample_after_diag", "k1", "cov", TRUE>>, <<"sample_after_diag", "k2", "cov", TRUE>> >>
+              <<"sample_after_diag", "k1", "cov", TRUE>>, <<"sample_after_diag", "k2", "cov", TRUE>>,
+              \* contour-integral sampling with an active (rank-2 pivoted-Cholesky) preconditioner: operators K + D only
+              <<"sample_ciq_precond", "k1", "cov", FALSE>>, <<"sample_ciq_precond", "k2", "cov", FALSE>> >>
 \* thresholds: max_cholesky_size in {0, default} (sizes on both sides of it), max_root_decomposition_size in {2, default},
 \* fast covar_root_decomposition on / off
 Thresholds == { [max_chol |-> mc, max_root |-> mr, fast_root |-> fr] : mc \in {0, 800}, mr \in {2, 100}, fr \in BOOLEAN }
@@ -62,16 +64,17 @@ Init ==
   /\ \E ci \in 1..Len(Cls), bi \in 1..Len(Batches), qi \in 1..Len(Queries), t \in Thresholds, sd \in {1, 100000} :
        /\ ((ci + bi + qi + ThrId(t)) % NParts = Part)
        /\ (sd # 1 => Cls[ci] \in ScaledCls /\ Queries[qi][3] # "cov" /\ t.max_root = 100)
-       /\ (Tier = "quick" => IF Cls[ci] \in {"MixedDef", "LowRankHuge"} THEN TRUE ELSE IF sd = 1 THEN ((ci + qi + ThrId(t) + bi) % 3 = 0)
+       /\ (Tier = "quick" => IF Cls[ci] \in {"MixedDef", "LowRankHuge"} \/ Queries[qi][1] = "sample_ciq_precond" THEN TRUE ELSE IF sd = 1 THEN ((ci + qi + ThrId(t) + bi) % 3 = 0)
                              ELSE (Queries[qi][2] = "pivoted_cholesky" \/ (ci + qi + ThrId(t) + bi) % 5 = 0))
        \* the mixed-definiteness batch: Cholesky-type queries on its own batch shape only
        /\ (Cls[ci] = "MixedDef" => bi = 1 /\ sd = 1 /\ Queries[qi][1] \in {"cholesky", "linalg_cholesky"} /\ t.max_chol = 800)
        \* the singular huge-scale matrix: default-method roots and the samplers built on them (Cholesky must fail over to symeig)
        /\ (Cls[ci] = "LowRankHuge" => sd = 1 /\ t.max_chol = 800 /\ t.max_root = 100 /\
               (Queries[qi][1] \in {"root_decomposition", "sample"} /\ Queries[qi][2] \in {"none", "k1", "k2"}))
-       /\ (Queries[qi][1] = "sample_ciq" => t.max_root = 100 /\ t.max_chol = 800 /\ ~t.fast_root)
+       /\ (Queries[qi][1] \in {"sample_ciq", "sample_ciq_precond"} => t.max_root = 100 /\ t.max_chol = 800 /\ ~t.fast_root)
+       /\ (Queries[qi][1] = "sample_ciq_precond" => Cls[ci] \in {"AddedDiag", "AddedDiagI"})
        /\ desc = [cls |-> Cls[ci], b |-> Batches[bi], query |-> Queries[qi][1], method |-> Queries[qi][2], relation |-> Queries[qi][3],
-                  exact |-> ExactUnder(Queries[qi], t), thr |-> t, id |-> (((ci * 4 + bi) * 32 + qi) * 8 + ThrId(t)) * 2 + (IF sd = 1 THEN 0 ELSE 1),
+                  exact |-> ExactUnder(Queries[qi], t), thr |-> t, id |-> (((ci * 4 + bi) * 64 + qi) * 8 + ThrId(t)) * 2 + (IF sd = 1 THEN 0 ELSE 1),
                   sden |-> sd,
                   dt |-> IF (ci + qi) % 3 = 0 THEN "f32" ELSE "f64", seed |-> ci * 13 + bi * 5]
   /\ term = <<>> /\ dense = <<>> /\ pc = 0
